@@ -1254,6 +1254,11 @@ class Machine:
             return r
         if m in ("min", "max"):
             return Opaque(m)
+        if m in ("any", "all"):
+            t = self.truth(arr.row)
+            if m == "any":
+                return True if t is True else UNK     # other rows may be True
+            return False if t is False else UNK
         if m == "tolist":
             return arr.row
         if m == "astype":
